@@ -23,6 +23,7 @@ func init() {
 			"R4":  "3-bet uniqueness loops; guard object = acting player at every call site",
 			"R5":  "per-hand reset from an all-zero constructor",
 			"R7":  "a chance flag is never taken back within a hand: outside the constructor it is stored only as the constant true (or false where the did-flag cannot have been set before)",
+			"R8":  "the counters count accepted moves only: each wager action of the hand wrapper tests the backend's error and returns it to the engine method (shared with C13.R2), which bumps its counters only under err == nil (R2)",
 			"R6":  "the engine's hand-state hook refreshes the chance statistics from every state received while the table is playing",
 		},
 		Assumptions: []string{"no emitted hand snapshot carries the game-level Started event during betting (pokerface; demonstrated by triage/TestF2)"},
@@ -65,6 +66,17 @@ func statsObj(addr *Sym) *Sym { // the TablePlayerGameStatistics object a field 
 
 func checkC14(c *Ctx) {
 	p := c.P
+	// R8: "accepted" means the hand engine applied the move — the hand wrapper's wager actions hand the
+	// backend's error back to the engine method that bumps the counters (as C13.R2, for those actions)
+	if gt := p.singleImpl("", "Game"); gt != nil {
+		wager := map[string]bool{"Fold": true, "Check": true, "Call": true, "Bet": true, "Raise": true, "Allin": true, "Pass": true, "Pay": true}
+		checkBackendErrors(c, "R8", gt, func(call *ssa.Call) bool {
+			f := call.Parent()
+			return f.Parent() == nil && f.Signature.Recv() != nil && wager[fnName(f)] && isBackendCall(call.Common())
+		}, 7)
+	} else {
+		c.Bad("R8", "anchors", "-", "hand wrapper not found")
+	}
 	// R6: the chance flags are refreshed from every hand state received while playing
 	checkUpdateHook(c, "R6", "register", "stats")
 	// R7: within a hand a chance flag is never taken back once the did-flag may be set:
